@@ -109,6 +109,12 @@ impl PatchIndexHeader {
             key_size = data[pos];
             pos += 1;
 
+            // Keys are stored in a 16-byte array; a larger declared key size cannot be
+            // represented (and `build` would slice the array out of range).
+            if key_size > 16 {
+                return Err(PatchIndexError::InvalidKeySize(key_size));
+            }
+
             let key_bytes = key_size.min(16) as usize;
             if pos + key_bytes > data.len() {
                 return Err(PatchIndexError::TruncatedHeader {
